@@ -190,6 +190,14 @@ func (m *Message) buildBody() {
 		}
 	}
 	switch s.Encoding {
+	case "gzip-multi":
+		// two or three gzip members one after the other (RFC 1952 2.2: a gzip
+		// file is a series of members); labelled gzip, x-gzip for odd sizes
+		n := 2 + len(plain)%2
+		for i := 0; i < n; i++ {
+			m.Entity = append(m.Entity, compress("gzip", plain[i*len(plain)/n:(i+1)*len(plain)/n])...)
+		}
+		m.Plain, m.Decodable = plain, true
 	case "gzip", "deflate", "GZIP", "x-gzip", "deflate-zlib", "deflate-zlib-small":
 		m.Entity = compress(s.Encoding, plain)
 		m.Plain = plain
@@ -212,6 +220,11 @@ func (m *Message) buildBody() {
 		m.Encoding = "gzip"
 	case "deflate-zlib", "deflate-zlib-small":
 		m.Encoding = "deflate"
+	case "gzip-multi":
+		m.Encoding = "gzip"
+		if len(plain)%3 == 1 {
+			m.Encoding = "x-gzip"
+		}
 	default:
 		m.Encoding = s.Encoding
 	}
@@ -318,6 +331,9 @@ func Build(s Spec) *Message {
 	}
 	for _, h := range s.Headers {
 		m.add(&buf, h.Name, h.Value)
+	}
+	for _, l := range s.ConnOptions {
+		m.add(&buf, "Connection", l)
 	}
 	if s.ConnClose {
 		m.add(&buf, "Connection", "close")
